@@ -13,7 +13,7 @@ import ast
 import itertools
 import itertools
 from dataclasses import dataclass, field
-from typing import Any, Callable
+from typing import Iterator, Any, Callable
 
 from .loader import Repo, Cls, Func, Mod, dotted, AnalysisError
 from .consts import Folder, NotConst, EnumMember, ClassRef, Opaque
@@ -77,6 +77,9 @@ class FuncVal:
 @dataclass
 class Tok:
     text: str
+    type: str = ""
+    line: int = 1
+    column: int = 0
 
     def __repr__(self) -> str:
         return f"Tok({self.text})"
@@ -92,6 +95,10 @@ class ACtx:
         self.line = line
         self.column = column
         self.uid = next(_uid)
+        self.children: list[Any] = []  # ACtx | Tok in source order (grammar-derived contexts only)
+        self.freq: dict[str, int] | None = None  # element frequencies of the rule: accessor shape as in the generated parser
+        self.stop_line = line
+        self.stop_column = column + 1
 
     def __repr__(self) -> str:
         return f"<ctx {self.rule}#{self.uid}>"
@@ -134,6 +141,32 @@ class Interp:
         self.max_steps = max_steps
         self.depth = 0
         self.trace: list[str] = []
+
+    # ------------------------------------------------------------------ parse-tree visitors
+    def _is_tree_visitor(self, cls: Cls) -> bool:
+        for k in self.repo.mro(cls):
+            for b in k.base_exprs:
+                n = dotted(b) or ""
+                if n.split(".")[-1].endswith("Visitor") and not any(n.split(".")[-1] in m.classes for m in self.repo.modules.values()):
+                    return True
+        return False
+
+    def visit_dispatch(self, visitor: Any, ctx: Any) -> Any:
+        if isinstance(ctx, Tok):
+            return None
+        if not isinstance(ctx, ACtx) or not isinstance(visitor, AObj):
+            raise Unsupported("visit of a non-context")
+        name = "visit" + ctx.rule[0].upper() + ctx.rule[1:]
+        m = self.repo.find_method(visitor.cls, name)
+        if m is not None:
+            return self.call_func(m, [visitor, ctx], {})
+        return self.visit_children(visitor, ctx)
+
+    def visit_children(self, visitor: Any, ctx: Any) -> Any:
+        res = None
+        for ch in list(ctx.children):
+            res = self.visit_dispatch(visitor, ch)
+        return res
 
     # ------------------------------------------------------------------ objects
     def new(self, cls: Cls, *args: Any, **kwargs: Any) -> AObj:
@@ -531,6 +564,8 @@ class Interp:
             m = self.repo.find_method(o.cls, attr)
             if m is not None:
                 return FuncVal(m, o)
+            if attr.startswith("visit") and self._is_tree_visitor(o.cls):
+                return _BoundVisit(self, attr, o)
             for k in self.repo.mro(o.cls):
                 if attr in k.class_assigns:
                     try:
@@ -566,7 +601,11 @@ class Interp:
             if attr == "start":
                 return _Pos(o.line, o.column)
             if attr == "stop":
-                return _Pos(o.line, o.column + 1)
+                return _Pos(o.stop_line, o.stop_column)
+            if attr == "accept":
+                return _BoundVisit(self, "accept", o)
+            if attr == "children":
+                return list(o.children)
             return _CtxAccessor(o, attr)
         if isinstance(o, _Pos):
             return getattr(o, attr)
@@ -912,6 +951,21 @@ class _CtxAccessor:
 
     def __call__(self, *args: Any) -> Any:
         c = self.ctx
+        if c.freq is not None:
+            # shape of the generated accessor: a list (or the i-th child / None) when the element may repeat, else the child or None
+            n = c.freq.get(self.name)
+            if n is None:
+                if self.name in ("getText",):
+                    return "".join(t.text for t in _leaves(c))
+                raise Unsupported(f"context accessor {c.rule}.{self.name}()")
+            got = [x for x in c.children if (isinstance(x, ACtx) and x.rule == self.name) or (isinstance(x, Tok) and getattr(x, "type", None) == self.name)]
+            if n >= 2:
+                if args:
+                    return got[args[0]] if args[0] < len(got) else None
+                return got
+            if args:
+                return got[args[0]] if args[0] < len(got) else None
+            return got[0] if got else None
         if self.name in c.subs:
             v = c.subs[self.name]
             if args and isinstance(v, list):
@@ -929,6 +983,32 @@ class _CtxAccessor:
         if self.name.isupper() or self.name[0].isupper():
             return None  # token accessor for a token that is not present
         return None
+
+
+def _leaves(c: ACtx) -> Iterator[Any]:
+    for x in c.children:
+        if isinstance(x, ACtx):
+            yield from _leaves(x)
+        else:
+            yield x
+
+
+class _BoundVisit:
+    """The tree-visitor protocol of the parser runtime (visit / visitChildren / accept / default visitX): pure dispatch on the rule name."""
+
+    def __init__(self, interp: "Interp", name: str, obj: Any) -> None:
+        self.interp = interp
+        self.name = name
+        self.obj = obj
+
+    def __call__(self, *args: Any) -> Any:
+        I = self.interp
+        if self.name == "accept":
+            return I.visit_dispatch(args[0], self.obj)
+        if self.name == "visit":
+            return I.visit_dispatch(self.obj, args[0])
+        # visitChildren and every visitX the class does not define
+        return I.visit_children(self.obj, args[0])
 
 
 class _BoundNative:
@@ -978,7 +1058,8 @@ def _consume(it: Any = (), maxlen: Any = None) -> Any:
 
 # pure standard-library callables whose semantics are fixed by the language, not by the repository
 _STDLIB_FUNCS: dict[str, Any] = {"itertools.takewhile": lambda f, it: list(itertools.takewhile(f, it)), "itertools.count": itertools.count,
-                                 "itertools.chain": lambda *a: list(itertools.chain(*a)), "collections.deque": _consume, "deque": _consume}
+                                 "itertools.chain": lambda *a: list(itertools.chain(*a)), "collections.deque": _consume, "deque": _consume,
+                                 "antlr4.ParserRuleContext": lambda *a: ACtx("_empty"), "antlr4.ParserRuleContext.ParserRuleContext": lambda *a: ACtx("_empty")}
 
 _BUILTINS: dict[str, Any] = {
     "next": next,
